@@ -226,13 +226,27 @@ def run_config(scheme, label, field, vclass, cfg, acc, rng, deleted=None):
             return "nodb"
         shadow = copy.deepcopy(db)
         case["db"] = shadow
-        st = sse.Setup(scheme, copy.deepcopy(cfg), db)
+        cfg_given = copy.deepcopy(cfg)
+        st = sse.Setup(scheme, cfg_given, db)
         if st.error is not None:
             if isinstance(st.error, CaseTimeout):
                 raise st.error
             acc.count(f"outcome.refused@{st.phase}")
             acc.add("outcomes", f"{key_out}|refused@{st.phase}:{type(st.error).__name__}")
             return "refused"
+        if rng.random() < 0.5:
+            # the dict belongs to the caller, who rewrites it for the next experiment: the scheme that was built from
+            # it, and the index, are those of the configuration as it was written when they were built
+            acc.count("caller_rewrites_cfg_after_setup")
+            for k, v in list(cfg_given.items()):
+                if isinstance(v, bool) or k == "scheme":
+                    continue
+                if isinstance(v, int):
+                    cfg_given[k] = rng.choice([v + 1, v * 2, max(1, v // 2), 1, 8])
+                elif isinstance(v, float):
+                    cfg_given[k] = rng.choice([0.1, 1.0, v / 2])
+            if rng.random() < 0.3:
+                cfg_given.clear()
         words = [(w, "present") for w in shadow] + [(w, "absent") for w, _ in
                                                     gen.absent_keywords(rng, shadow, 12 if scheme not in (
                                                         "CGKO06.SSE1", "CGKO06.SSE2") else max(1, min(12, cfg["param_l"])),
